@@ -1,6 +1,7 @@
 //! Engine K checks: the real compio runtime, driver, fs and net crates on the simulated io_uring kernel.
 
 mod cancel;
+mod fsmodel;
 mod kutil;
 mod smoke;
 mod streams;
@@ -22,6 +23,7 @@ fn main() {
     let mut scenarios: Vec<Scenario> = Vec::new();
     scenarios.extend(smoke::scenarios());
     scenarios.extend(cancel::scenarios());
+    scenarios.extend(fsmodel::scenarios());
     scenarios.extend(streams::scenarios());
     scenarios.extend(timers::scenarios());
     simcore::worker::main(&scenarios)
